@@ -57,29 +57,36 @@ def threshold : Nat := 3
 
 abbrev Cont (R E : Type) := Option (Page R E × Nat)
 
+/-- Result of a harvest: delivered entries, continuation (page and offset), and — a ghost
+    component for the boundedness theorem and the request-log comparison — the number of pages
+    visited. -/
+structure Res (R E : Type) where
+  out : List (Out E)
+  cont : Cont R E
+  pages : Nat
+
 /-- `if length == 0 { emptyCount += 1 } else { emptyCount = 0 }`. -/
 def nextEmpties (length empties : Nat) : Nat := if length = 0 then empties + 1 else 0
 
 /-- `harvestWithEmptyCount` at starting point 0 (every recursive call). -/
-def harvest0 (load : R → Option (Page R E)) (c : Page R E) (amount empties : Nat) :
-    List (Out E) × Cont R E :=
-  if c.elemsFailed then ([.failElems], none)
+def harvest0 (load : R → Option (Page R E)) (c : Page R E) (amount empties : Nat) : Res R E :=
+  if c.elemsFailed then ⟨[.failElems], none, 1⟩
   else
     let xs := c.items
     let empties' := nextEmpties xs.length empties
-    if empties' > threshold then ([.refuse], none)
-    else if xs.length > amount then ((xs.take amount).map .item, some (c, amount))
+    if empties' > threshold then ⟨[.refuse], none, 1⟩
+    else if xs.length > amount then ⟨(xs.take amount).map .item, some (c, amount), 1⟩
     else
       let here := xs.map Out.item
       match c.next with
-      | .absent => (here, none)
-      | .err => (here ++ [.failNext], none)
+      | .absent => ⟨here, none, 1⟩
+      | .err => ⟨here ++ [.failNext], none, 1⟩
       | .ref r =>
         match load r with
-        | none => (here ++ [.failLoad], none)
+        | none => ⟨here ++ [.failLoad], none, 1⟩
         | some p =>
           let rest := harvest0 load p (amount - xs.length) empties'
-          (here ++ rest.1, rest.2)
+          ⟨here ++ rest.out, rest.cont, rest.pages + 1⟩
 termination_by (amount, threshold + 1 - empties)
 decreasing_by
   have hlt : ¬ nextEmpties c.items.length empties > threshold := by assumption
@@ -95,25 +102,60 @@ decreasing_by
     omega
 
 /-- `Harvest(amount, startingPoint)`: the first page may be entered at an offset. -/
-def harvest (load : R → Option (Page R E)) (c : Page R E) (amount start : Nat) :
-    List (Out E) × Cont R E :=
-  if c.elemsFailed then ([.failElems], none)
+def harvest (load : R → Option (Page R E)) (c : Page R E) (amount start : Nat) : Res R E :=
+  if c.elemsFailed then ⟨[.failElems], none, 1⟩
   else
     let xs := c.items
     let empties' := nextEmpties xs.length 0
     -- (`empties' > threshold` is impossible on the first page)
     let k := if start ≥ xs.length then 0 else if xs.length > amount + start then amount else xs.length - start
     let here := ((xs.drop start).take k).map Out.item
-    if xs.length > amount + start then (here, some (c, amount + start))
+    if xs.length > amount + start then ⟨here, some (c, amount + start), 1⟩
     else
       match c.next with
-      | .absent => (here, none)
-      | .err => (here ++ [.failNext], none)
+      | .absent => ⟨here, none, 1⟩
+      | .err => ⟨here ++ [.failNext], none, 1⟩
       | .ref r =>
         match load r with
-        | none => (here ++ [.failLoad], none)
+        | none => ⟨here ++ [.failLoad], none, 1⟩
         | some p =>
           let rest := harvest0 load p (amount - k) empties'
-          (here ++ rest.1, rest.2)
+          ⟨here ++ rest.out, rest.cont, rest.pages + 1⟩
+
+/-! ### The true sequence of a chain (specification side) -/
+
+/-- The first `fuel + 1` pages of the chain starting at `c` (it stops at a page that failed,
+    has no `next`, or whose `next` fails to load). -/
+def chain (load : R → Option (Page R E)) : Nat → Page R E → List (Page R E)
+  | 0, c => [c]
+  | fuel + 1, c =>
+    if c.elemsFailed then [c]
+    else match c.next with
+      | .ref r => match load r with
+        | some p => c :: chain load fuel p
+        | none => [c]
+      | _ => [c]
+
+/-- The items of the chain from offset `start` of its first page, in order. -/
+def flat (load : R → Option (Page R E)) (fuel : Nat) (c : Page R E) (start : Nat) : List E :=
+  match chain load fuel c with
+  | [] => []
+  | p :: ps => p.items.drop start ++ (ps.map Page.items).flatten
+
+/-- The chain starting at `c` ends cleanly (a page without `next`) within `fuel` links, with no
+    failing page on the way. -/
+def endsCleanly (load : R → Option (Page R E)) : Nat → Page R E → Bool
+  | 0, c => !c.elemsFailed && (match c.next with | .absent => true | _ => false)
+  | fuel + 1, c =>
+    !c.elemsFailed && (match c.next with
+      | .absent => true
+      | .err => false
+      | .ref r => match load r with
+        | some p => endsCleanly load fuel p
+        | none => false)
+
+def Out.isItem : Out E → Bool
+  | .item _ => true
+  | _ => false
 
 end Coll
